@@ -8,7 +8,7 @@ E == Trace[l]
 R(q) == {q[i] : i \in DOMAIN q}
 LoggedPost(p) == /\ providers' = p.providers /\ feeds' = p.feeds /\ primary' = p.primary
                  /\ blocks' = {<<b[1], b[2]>> : b \in R(p.blocks)} /\ files' = {<<f[1], f[2], f[3]>> : f \in R(p.files)}
-                 /\ height' = p.height
+                 /\ inbox' = {<<b[1], b[2]>> : b \in R(p.inbox)} /\ height' = p.height
 Lbl(e) == [f \in (DOMAIN e) \ {"post", "x"} |-> e[f]]
 SpecAct(e) ==
   CASE e.a = "initprovider" -> InitProvider(e.s, e.v)
@@ -25,6 +25,8 @@ SpecAct(e) ==
     [] e.a = "postfile" -> PostFile(e.s, e.m)
     [] e.a = "deletefile" -> DeleteFile(e.s, e.m, e.st)
     [] e.a = "contractpost" -> ContractPost(e.s, e.creator, e.m)
+    [] e.a = "notify" -> Notify(e.s, e.to)
+    [] e.a = "delnotif" -> DelNotif(e.s, e.from)
     [] e.a = "tick" -> Tick
 Report_(kind, name) == PrintT(<<kind, name, l>>)
 Chk(name, F) == IF F THEN TRUE ELSE Report_("VIOL", name)
@@ -34,13 +36,14 @@ NTOwn == \/ vars' # vars
          \/ (last'.a = "updatefeed" /\ last'.n \in DOMAIN feeds /\ feeds[last'.n].owner # last'.s)
          \/ (last'.a = "deletefile" /\ \E f \in files : f[1] = last'.m /\ f[3] = last'.st /\ f[2] # last'.s)
          \/ (last'.a = "contractpost" /\ last'.creator # last'.s)
+         \/ (last'.a \in {"blocksender", "delnotif"} /\ \E e \in inbox : e[1] # last'.s)
 TStep == /\ E.a # "reset" /\ l' = l + 1
          /\ LoggedPost(E.post) /\ last' = Lbl(E)
          /\ (IF SpecAct(E) THEN TRUE ELSE Report_("DRIFT", E.a))
          /\ Chk("C11_Own", C11_Own)
          /\ NT("C11", NTOwn)
 TReset == /\ E.a = "reset" /\ l' = l + 1 /\ LoggedPost(E.post) /\ last' = [a |-> "reset", s |-> "none", ok |-> TRUE]
-TInit == /\ l = 1 /\ providers = <<>> /\ feeds = <<>> /\ primary = <<>> /\ blocks = {} /\ files = {} /\ height = 0
+TInit == /\ l = 1 /\ providers = <<>> /\ feeds = <<>> /\ primary = <<>> /\ blocks = {} /\ files = {} /\ inbox = {} /\ height = 0
          /\ last = [a |-> "init", s |-> "none", ok |-> TRUE]
 TNext == l <= Len(Trace) /\ (TStep \/ TReset)
 TSpec == TInit /\ [][TNext]_tvars
